@@ -76,7 +76,9 @@ func (f *WithZipReader) Call(s *slip.Scope, args slip.List, depth int) (result s
 	s2 := s.NewScope()
 	s2.Let(sym, slip.NewInputStream(z))
 	for i := range forms {
-		result = slip.EvalArg(s2, forms, i, d2)
+		if result = slip.EvalArg(s2, forms, i, d2); slip.IsExit(result) {
+			break
+		}
 	}
 	_ = z.Close()
 
